@@ -1148,9 +1148,11 @@ def _init_wrapper(__init__: Callable, frozen: bool, shadow: bool) -> Callable:
         __init__(self, **kwargs)
         if frozen:
             local_setattr = _setattr_wrapper(self.__setattr__, self.__expected_keys__)
-            for key, val in kwargs.items():
-                local_setattr(self, key, val)
-                del self.__dict__[key]
+            # every field the dataclass __init__ wrote (defaults included, e.g. a None default), not only the arguments
+            for key in type(self).__dataclass_fields__:
+                if key in self.__dict__:
+                    local_setattr(self, key, self.__dict__[key])
+                    del self.__dict__[key]
         if lock:
             self._tensordict.lock_()
 
